@@ -1,5 +1,5 @@
 (* Props/C11.v -- property C11: parsing respects precedence, associativity and token boundaries. *)
-From FPV Require Import Base.Prelude C11.Model C11.Proofs C11.ProofsFull C11.Lexer C11.LexerProofs.
+From FPV Require Import Base.Prelude C11.Model C11.Proofs C11.ProofsFull C11.Lexer C11.LexerProofs C11.LexerInsert.
 
 (* PROVED (partial): for ANY precedence table and every tree of the binary-operator core (atoms, binary
    operators of every level, parenthesised sub-terms) of ANY depth, the model parser inverts the
@@ -103,10 +103,34 @@ Proof. exact skipm_line_comment. Qed.
 Example C11_lexemes_nonvacuous :
   Forall lexeme [[97;95;49]; [49;50;46;53]; [39;97;92;39;98;39]; [36;116;104;105;115]; [60;61]; [33;126]; [47]; [96;32;96]]%N.
 Proof. exact lexeme_examples. Qed.
-(* NOT PROVED (correspondence only): insertion of a gap where the source has none (`1+2` versus `1 + 2`), block
-   comments as gaps, DATE / DATETIME / TIME literals, the fallback reading of quoted tokens. *)
+(* PROVED (session 3, the gap statement for whitespace at full strength): for ANY source s -- accepted by the lexer or
+   not -- and ANY token boundary of it (b is s itself, or what is left of s right after one of its default-channel
+   tokens: `reach s b`), inserting any non-empty whitespace at that boundary, also where the source has no gap there
+   (`1+2` versus `1 + 2`, `a.b` versus `a . b`, `x<=y` versus `x <= y`), leaves the token stream unchanged.  Covers every
+   token class of the model, comments elsewhere in the source (closed, line, and ANTLR's fallback for `/*` that never
+   closes: whitespace inserted into it does not close it), for every fuel. *)
+Theorem C11_lex_insert_whitespace : forall s b, reach s b -> forall pre g f, s = pre ++ b -> wsne g ->
+  lex f (pre ++ g ++ b) = lex f (pre ++ b).
+Proof. exact lex_insert_ws. Qed.
+(* the two locality facts it rests on: a token ends where it ended whenever what follows still stops it, and the
+   hidden-channel automaton hands over the same position when whitespace is inserted behind that position *)
+Theorem C11_scan_stable : forall s l r, scan s = Some (l, r) ->
+  s = l ++ r /\ l <> [] /\ forall r', follows_like r r' -> scan (l ++ r') = Some (l, r').
+Proof. exact scan_stable. Qed.
+Theorem C11_unclosed_comment_stays_unclosed : forall a b g m, wsne g -> m = MBlock \/ m = MStar ->
+  skipm m (a ++ b) = None -> skipm m (a ++ g ++ b) = None.
+Proof. exact block_unclosed_ins. Qed.
+Example C11_reach_nonvacuous :
+  reach [49; 43; 50; 46; 53; 60; 61; 120]%N [50; 46; 53; 60; 61; 120]%N /\ reach [49; 43; 50; 46; 53; 60; 61; 120]%N [60; 61; 120]%N.
+Proof. exact reach_example. Qed.
+(* NOT PROVED (correspondence only): comments as the inserted gap (a comment inserted after a `/*` that never closes
+   does change the tokens, in the generated lexer too: see DESIGN), DATE / DATETIME / TIME literals, the fallback
+   reading of quoted tokens. *)
 Print Assumptions C11_lex_spaced_tokens.
 Print Assumptions C11_lex_whitespace_irrelevant.
 Print Assumptions C11_token_then_whitespace.
 Print Assumptions C11_lex_leading_whitespace.
 Print Assumptions C11_line_comment_skipped.
+Print Assumptions C11_lex_insert_whitespace.
+Print Assumptions C11_scan_stable.
+Print Assumptions C11_unclosed_comment_stays_unclosed.
